@@ -150,3 +150,11 @@ pub fn sym_b() -> String { String::new() }
 #[derive(TS)] #[ts(as = "Vec<T>")] pub enum DN7<T> { A(T) }
 #[derive(TS)] #[doc = "cdoc"] #[ts(as = "Vec<T>")] pub struct DD8<T> { pub never: T }
 #[derive(TS)] #[ts(as = "Vec<T>")] pub struct DN8<T> { pub never: T }
+#[derive(TS)] pub struct FS1<T> { #[ts(optional)] pub o: Option<T>, #[ts(rename = "r-n")] pub r: T, #[ts(inline)] pub i: Inner<T> }
+#[derive(TS)] pub struct FP1<T> { pub k: bool, #[ts(flatten)] pub f: FS1<T> }
+#[derive(TS)] #[ts(rename_all = "UPPERCASE")] pub struct FS2<T> { pub ab: T }
+#[derive(TS)] #[ts(rename_all = "camelCase")] pub struct FP2<T> { pub my_key: bool, #[ts(flatten)] pub f: FS2<T>, #[ts(flatten)] pub g: Inner<T> }
+#[derive(TS)] #[ts(tag = "t")] pub enum FV1<T> { A { k: bool, #[ts(flatten)] f: Inner<T> }, B }
+#[derive(TS)] #[ts(tag = "t", content = "c")] pub enum FV2<T> { A { k: bool, #[ts(flatten)] f: Inner<T> }, B }
+#[derive(TS)] pub struct AT1<T>(#[ts(as = "Vec<T>")] pub i32, pub T);
+#[derive(TS)] pub struct AT2<T>(#[ts(as = "Option<T>")] pub Vec<T>);
